@@ -23,7 +23,8 @@ RULE = (
     "random reads/writes/borrows/returns with indices biased to -n-1..n+1, +-2^63 boundaries; the EXTRACTED op lists are "
     "interpreted in Python and in Lean and compared with Python-list + lent-flag semantics. (3) T-exec: the real "
     "ArrayIter.__next__ body from /repo runs under CPython on shim arrays vs the Lean model, on random iterator states "
-    "and full drains. Non-trivial = index out of range or negative, a lent cell touched, or (probes) >=1 pop on each "
+    "and full drains. (4) end-to-end: generated whole programs run on the reference interpreter (both schedules) vs CPython "
+    "(value equality, panic iff IndexError/negative index; plain writes to non-copyable elements are not generated: borrow discipline). Non-trivial = index out of range or negative, a lent cell touched, or (probes) >=1 pop on each "
     "side / a starred target; distinct by canonical request"
 )
 ASSUMPTIONS = [
@@ -40,13 +41,19 @@ ASSUMPTIONS = [
     "ArrayIter.__next__ is Guppy source executed under CPython against shims (Guppy's claim that its source means what Python means is C03)",
 ]
 UNMODELLED = [
-    "the runtime's implementation of borrow_array (hugr-llvm / selene): assumed, not verified",
+    "run-time behaviour is SAMPLED, not proved: generated programs (reads/writes/augmented assignments with in-range, out-of-range and "
+    "negative indices, nested arrays, unpacking incl. starred targets from arrays / nested arrays / range, for loops, comprehensions, "
+    "copy()) are lowered by the real compiler, executed by the reference interpreter harness/hugr_interp.py (validated against CPython "
+    "and the 1.0.4 emulator, notes/INTERP.md) under the default and the adversarial schedule, and compared with CPython running the same "
+    "source; the production runtime (hugr-llvm / selene) itself is outside the repository",
     "frozenarray (immutable, classical), array.__new__ from list comprehension internals, array `scan`/`repeat`/`to_array`/`from_array` conversions",
     "comptime array access (Python lists; C21)",
     "comprehensions with several generators or `if` guards (one generator, no guard is extracted: TailLoop, __next__ call, Conditional "
     "cases, tags, carried-value wiring, body, result port); the semantics of TailLoop/Conditional themselves are assumed",
 ]
 TRUSTED_EXTRA = [
+    "harness/hugr_interp.py (reference interpreter, search oracle only) and the CPython shim of hugr_interp_validate.py (bounds-checked "
+    "lists; negative indices panic) used by the end-to-end section (harness/props/c19_e2e.py)",
     "harness/props/c19_ssa.py: extraction of op lists and wiring from the in-memory Hugr (node order = emission order)",
     "the Python interpreter of extracted op lists in c19.py (a second, independent transcription of the assumed op semantics)",
 ]
@@ -61,7 +68,7 @@ MANIFEST = {
     "compiler produces for probe programs and (a) proved equal to the model's emission by `decide` in a regenerated Gen file, "
     "(b) compared for generated pattern shapes through the driver, (c) interpreted on random inputs against Python-list semantics; "
     "ArrayIter.__next__ is executed from /repo's source under CPython against the Lean model.",
-    "level_note": "Partial: borrow_array's runtime implementation is outside the repository — its op semantics are an explicit "
+    "level_note": "Runtime sampled through the reference interpreter (not unmodelled, not proved). Partial: borrow_array's runtime implementation is outside the repository — its op semantics are an explicit "
     "assumption (Model/ArraySem.lean, ASSUMPTIONS). Trusted: Lean kernel + propext/Classical.choice/Quot.sound, the Hugr op-list "
     "extractor, the shims of T-exec. Probes/sequences are sampling (exhaustive over unpack shapes up to the tier's length bound).",
     "technique": "Lean 4 proof over an SSA op-list semantics + per-run extraction of the real lowering (T-obj) + CPython execution of "
@@ -1008,6 +1015,9 @@ def tie(ctx):
             g.send(reps[a0:a0 + n0])
         except StopIteration:
             pass
+    # ---- (6) end-to-end: generated programs on the reference interpreter (both schedules) vs CPython
+    import c19_e2e
+    c19_e2e.c19_e2e(ctx)
 
 
 def _sec0(ctx, fixed, corpus):
